@@ -190,6 +190,10 @@ class CallMixin:  # pylint:disable=too-many-public-methods
                 oldest = func.fields["order"].pop(0)
                 del cache[oldest]
             return val
+        if isinstance(func, (Obj, EnumVal)) and func.cls in self.model.classes:
+            m_ = self.model.find_method(self.model.classes[func.cls], "__call__")
+            if m_ is not None:
+                return self.call(FuncVal(fn=m_, self_obj=func, module=m_.module), args, kwargs, node, frame)
         if isinstance(func, Opaque):
             if func.label.startswith("logger.") or func.kind == "logging.Logger":
                 return None
@@ -200,11 +204,37 @@ class CallMixin:  # pylint:disable=too-many-public-methods
             raise Unsupported(f"call of opaque value {func.label} at line {getattr(node, 'lineno', '?')}")
         raise Unsupported(f"call of {func!r} at line {getattr(node, 'lineno', '?')}")
 
+    def snapshot_context(self):
+        """The current context (ContextVars and the context-bound cells a rule registered) as a task creation copies it."""
+        return ([(cv, cv.fields["value"]) for cv in self.ctxvars], [(d, k, k in d, d.get(k)) for d, k in self.ctx_cells])
+
+    def install_context(self, snap) -> None:
+        for cv, val in snap[0]:
+            cv.fields["value"] = val
+        for d, k, had, val in snap[1]:
+            if had:
+                d[k] = val
+            else:
+                d.pop(k, None)
+
+    def in_context_copy(self, thunk, snap=None):
+        """Run `thunk` as a task does: in a copy of the context taken when the task was created; the changes it makes
+        to the context stay in that copy."""
+        current = self.snapshot_context()
+        if snap is not None:
+            self.install_context(snap)
+        try:
+            return thunk()
+        finally:
+            self.install_context(current)
+
     def await_(self, v: Any, node: ast.AST, frame) -> Any:
         if isinstance(v, CoroVal):
             if v.awaited:
                 self.raise_("RuntimeError", "cannot reuse already awaited coroutine")
             v.awaited = True
+            if v.task_ctx is not None:
+                return self.in_context_copy(lambda: self.run_function(v.func, v.args, v.kwargs, node), v.task_ctx)
             return self.run_function(v.func, v.args, v.kwargs, node)
         if isinstance(v, GatherVal):
             order = self.gather_order(len(v.items)) if hasattr(self, "gather_order") else range(len(v.items))
@@ -214,18 +244,15 @@ class CallMixin:  # pylint:disable=too-many-public-methods
                 if not isinstance(x, (CoroVal, GatherVal, Ready, Opaque)):
                     self.raise_("TypeError", "An asyncio.Future, a coroutine or an awaitable is required")
                 # lemma L5: every coroutine passed to gather runs as its own task in a *copy* of the current context
-                saved = [(cv, cv.fields["value"]) for cv in self.ctxvars]
-                try:
+                def one(x=x):
                     if getattr(v, "return_exceptions", False):
                         try:
-                            res[i] = self.await_(x, node, frame)
+                            return self.await_(x, node, frame)
                         except PyRaise as err_:
-                            res[i] = err_.exc  # exceptions are treated like results (also non-Exception BaseExceptions of user code)
-                    else:
-                        res[i] = self.await_(x, node, frame)
-                finally:
-                    for cv, val in saved:
-                        cv.fields["value"] = val
+                            return err_.exc  # exceptions are treated like results (also non-Exception BaseExceptions of user code)
+                    return self.await_(x, node, frame)
+
+                res[i] = self.in_context_copy(one, getattr(v, "task_ctx", None))
             return [res[i] for i in range(len(v.items))]
         if isinstance(v, Ready):
             if v.exc is not None:
@@ -356,7 +383,137 @@ class CallMixin:  # pylint:disable=too-many-public-methods
                 from .fdai import Frame
                 cfn = self.eval(conv, Frame(None, cls.module, None, set()))
                 obj.fields[n] = self.call(cfn, [obj.fields[n]], {}, node, frame)
+        if "typing.NamedTuple" not in self.model.mro(cls.qualname):
+            from .fdai import Frame
+            for n, info in fields.items():
+                vexpr = info.get("validator")
+                if vexpr is not None:
+                    owner = next((self.model.classes[cn] for cn in self.model.mro(cls.qualname) if cn in self.model.classes
+                                  and any(st is info["node"] for st in self.model.classes[cn].node.body)), cls)
+                    key = (owner.qualname, n, "validator")
+                    if key not in self.attr_memo:
+                        self.attr_memo[key] = self.eval(vexpr, Frame(None, owner.module, None, set()))
+                    self.apply_validator(self.attr_memo[key], obj, n, obj.fields[n], node, frame)
+            for cn in reversed(self.model.mro(cls.qualname)):
+                c = self.model.classes.get(cn)
+                for m in (c.methods.values() if c is not None else ()):
+                    for d in m.node.decorator_list:  # @<field>.validator
+                        if isinstance(d, ast.Attribute) and d.attr == "validator" and isinstance(d.value, ast.Name) and d.value.id in fields:
+                            self.call(FuncVal(fn=m, self_obj=obj, module=m.module), [Obj("attrs.Attribute", {"name": d.value.id}), obj.fields[d.value.id]], {}, node, frame)
+            post = self.model.find_method(cls, "__attrs_post_init__")
+            if post is not None:
+                self.call(FuncVal(fn=post, self_obj=obj, module=post.module), [], {}, node, frame)
         return obj
+
+    def apply_validator(self, val: Any, obj: Obj, name: str, value: Any, node, frame) -> None:
+        """attrs validators (run after the converters): a definite mismatch raises as attrs does; a value the analysis
+        does not know concretely (Opaque / symbolic text) passes - no alarm is based on it."""
+        if val is None:
+            return
+        if isinstance(val, (list, tuple)):
+            for v_ in val:
+                self.apply_validator(v_, obj, name, value, node, frame)
+            return
+        if isinstance(val, (FuncVal,)) or (isinstance(val, Obj) and val.cls == "functools.partial"):
+            self.call(val, [obj, Obj("attrs.Attribute", {"name": name}), value], {}, node, frame)
+            return
+        if not (isinstance(val, Obj) and val.cls == "attrs.validator"):
+            raise Unsupported(f"attrs validator {val!r} of field {name}")
+        kind, a, kw = val.fields["kind"], val.fields["args"], val.fields["kwargs"]
+        unknown = isinstance(value, (Opaque, StrT))
+        if kind == "optional":
+            if value is not None:
+                self.apply_validator(a[0] if a else kw.get("validator"), obj, name, value, node, frame)
+        elif kind == "and_":
+            for v_ in a:
+                self.apply_validator(v_, obj, name, value, node, frame)
+        elif kind == "or_":
+            errs = []
+            for v_ in a:
+                try:
+                    self.apply_validator(v_, obj, name, value, node, frame)
+                    return
+                except PyRaise as err_:
+                    errs.append(err_)
+            if errs:
+                self.raise_("ValueError", f"None of the validators of '{name}' accepted {value!r}")
+        elif kind == "instance_of":
+            spec = a[0] if a else kw.get("type")
+            if isinstance(value, Opaque) or (isinstance(value, StrT) and False):
+                return
+            try:
+                ok = self.isinstance_(value, spec, node, frame)
+            except Unsupported:
+                return
+            if not ok:
+                specs = spec if isinstance(spec, tuple) else (spec,)
+                if any(isinstance(s_, ExtVal) or (isinstance(s_, ClassVal) and s_.name not in self.model.classes and not s_.name.startswith("builtins.")) for s_ in specs):
+                    return  # an external class: abstract stand-ins carry no class
+                self.raise_("TypeError", f"'{name}' must be {spec!r} (got {value!r})")
+        elif kind == "matches_re":
+            rx = a[0] if a else kw.get("regex")
+            flags = a[1] if len(a) > 1 else kw.get("flags", 0)
+            func = a[2] if len(a) > 2 else kw.get("func")
+            if isinstance(rx, Obj) and rx.cls == "re.Pattern":
+                rx, flags = rx.fields["pattern"], rx.fields.get("flags", 0) or 0
+            if unknown:
+                return
+            if not isinstance(value, str):
+                self.raise_("TypeError", "expected string or bytes-like object")
+            import re as _re
+
+            fname = "fullmatch" if func is None else (func.name.split(".")[-1] if isinstance(func, ExtVal) else None)
+            if fname not in ("fullmatch", "match", "search") or not isinstance(rx, str) or not isinstance(flags, int):
+                raise Unsupported(f"matches_re({rx!r}, {flags!r}, {func!r})")
+            if not getattr(_re.compile(rx, flags), fname)(value):
+                self.raise_("ValueError", f"'{name}' must match regex {rx!r} ({value!r} doesn't)")
+        elif kind == "in_":
+            opts = self.iterate(a[0] if a else kw.get("options"), node, frame)
+            if not unknown and not any(self.eq(value, o) for o in opts):
+                self.raise_("ValueError", f"'{name}' must be in {opts!r} (got {value!r})")
+        elif kind == "deep_iterable":
+            mv = a[0] if a else kw.get("member_validator")
+            iv = a[1] if len(a) > 1 else kw.get("iterable_validator")
+            if iv is not None:
+                self.apply_validator(iv, obj, name, value, node, frame)
+            if isinstance(value, Opaque):
+                return
+            for member in self.iterate(value, node, frame):
+                self.apply_validator(mv, obj, name, member, node, frame)
+        elif kind == "deep_mapping":
+            kv = a[0] if a else kw.get("key_validator")
+            vv = a[1] if len(a) > 1 else kw.get("value_validator")
+            mpv = a[2] if len(a) > 2 else kw.get("mapping_validator")
+            if mpv is not None:
+                self.apply_validator(mpv, obj, name, value, node, frame)
+            if isinstance(value, Opaque):
+                return
+            if not isinstance(value, dict):
+                self.raise_("TypeError", f"'{name}' must be a mapping")
+            for k_, v_ in value.items():
+                self.apply_validator(kv, obj, name, k_, node, frame)
+                self.apply_validator(vv, obj, name, v_, node, frame)
+        elif kind in ("min_len", "max_len"):
+            if unknown:
+                return
+            n_ = len(self.iterate(value, node, frame))
+            if (kind == "min_len" and n_ < a[0]) or (kind == "max_len" and n_ > a[0]):
+                self.raise_("ValueError", f"Length of '{name}' must be {'>=' if kind == 'min_len' else '<='} {a[0]}: {n_}")
+        elif kind in ("ge", "gt", "le", "lt"):
+            if unknown or not isinstance(value, (int, float)) or not isinstance(a[0], (int, float)):
+                return
+            import operator as _op
+
+            if not getattr(_op, kind)(value, a[0]):
+                self.raise_("ValueError", f"'{name}' must be {kind} {a[0]}: {value}")
+        elif kind == "is_callable":
+            if not unknown and not isinstance(value, (FuncVal, ClassVal, ExtVal, BoundExt)) and not (isinstance(value, Obj) and value.cls in ("functools.partial",)):
+                if not (isinstance(value, Obj) and value.cls in self.model.classes and self.model.find_method(self.model.classes[value.cls], "__call__")):
+                    self.raise_("TypeError", f"'{name}' must be callable")
+        elif kind == "not_":
+            raise Unsupported("attrs.validators.not_")
+        else:
+            raise Unsupported(f"attrs validator {kind}")
 
     # ------------------------------------------------------------------ attribute access
     def getattr(self, v: Any, attr: str, node: Optional[ast.AST], frame, default: Any = KeyError) -> Any:  # noqa: C901
@@ -440,6 +597,17 @@ class CallMixin:  # pylint:disable=too-many-public-methods
             m = self.model.find_method(cls, attr) if cls is not None else None
             if m is not None:
                 return FuncVal(fn=m, self_obj=v, module=m.module)
+            init = self.model.find_method(cls, "__init__") if cls is not None else None
+            if init is not None:
+                # members with an __init__: the attributes it sets from the member's value (evaluated once per member)
+                mk = (v.cls, v.name, "enum-init")
+                if mk not in self.attr_memo:
+                    tmp = Obj(v.cls)
+                    vals = list(v.value) if isinstance(v.value, tuple) else [v.value]
+                    self.call(FuncVal(fn=init, self_obj=tmp, module=init.module), vals, {}, None, None)
+                    self.attr_memo[mk] = tmp.fields
+                if attr in self.attr_memo[mk]:
+                    return self.attr_memo[mk][attr]
             if self.is_subclass(v.cls, "builtins.str"):
                 return BoundExt(v.value, attr)
             if default is not KeyError:
@@ -985,6 +1153,8 @@ class CallMixin:  # pylint:disable=too-many-public-methods
             fn_ = _it.combinations if short == "itertools.combinations" else _it.permutations
             return [tuple(t) for t in fn_(seqs[0], r)]
         if name in ("asyncio.ensure_future", "asyncio.create_task", "asyncio.shield"):
+            if isinstance(args[0], CoroVal):
+                args[0].task_ctx = self.snapshot_context()  # a task runs in a copy of the context taken at its creation
             return args[0]
         if name == "asyncio.as_completed":
             items = self.iterate(args[0], node, frame)
@@ -992,9 +1162,23 @@ class CallMixin:  # pylint:disable=too-many-public-methods
             return [items[i] for i in order]  # completion order = the schedule chosen by the rule
         if name == "asyncio.sleep":
             return Ready(None)
+        if name.startswith(("attrs.validators.", "attr.validators.")):
+            return Obj("attrs.validator", {"kind": name.rsplit(".", 1)[-1], "args": list(args), "kwargs": dict(kwargs)})
+        if name in ("bisect.bisect_right", "bisect.bisect", "bisect.bisect_left"):
+            import bisect as _bisect
+
+            seq = self.iterate(args[0], node, frame)
+            x = args[1]
+            if kwargs or len(args) != 2 or not all(isinstance(v_, (int, float, str)) and not isinstance(v_, bool) for v_ in [*seq, x]):
+                raise Unsupported(f"{name} on non-literal values")
+            try:
+                return getattr(_bisect, short.split(".")[-1])(seq, x)
+            except TypeError as err_:
+                self.raise_("TypeError", str(err_))
         if name == "asyncio.gather":
             g = GatherVal(list(args))
             g.return_exceptions = bool(kwargs.get("return_exceptions", False))
+            g.task_ctx = self.snapshot_context()
             return g
         if name in ("inspect.isawaitable", "asyncio.iscoroutine", "inspect.iscoroutine"):
             v = args[0]
